@@ -176,3 +176,41 @@ class Task:
 
 def run_to_end(awaitable, acct, cancel_at=None, cancel_exc=None):
     return Task(awaitable, acct).run(cancel_at, cancel_exc)
+
+
+# --------------------------------------------------------------------------- a guard against operations that never return
+
+
+class Hang(BaseException):
+    """Raised (again and again) into code that has used up its CPU-time allowance without suspending or returning."""
+
+
+def guarded(seconds=30.0):
+    """Decorator for the per-case functions run in pool workers: if one case burns `seconds` of CPU time (not
+    wall-clock: a loaded machine does not matter) the library is spinning -- e.g. a loop that a seeded change
+    made endless.  The case then ends with `Hang`, which the wrapped function's caller reports; the timer is periodic
+    because such a loop may well swallow the first exception."""
+    import functools
+    import signal
+
+    def deco(fn):
+        @functools.wraps(fn)
+        def wrapper(*a, **kw):
+            state = {"fired": 0}
+
+            def on_alarm(*_):
+                state["fired"] += 1
+                raise Hang()
+
+            try:
+                old = signal.signal(signal.SIGVTALRM, on_alarm)
+            except ValueError:          # not in the main thread of this process: no guard
+                return fn(*a, **kw)
+            signal.setitimer(signal.ITIMER_VIRTUAL, seconds, 0.5)
+            try:
+                return fn(*a, **kw)
+            finally:
+                signal.setitimer(signal.ITIMER_VIRTUAL, 0, 0)
+                signal.signal(signal.SIGVTALRM, old)
+        return wrapper
+    return deco
